@@ -203,11 +203,11 @@ pub fn parse_docs(attrs: &[Attribute]) -> Result<String> {
         0 => String::new(),
 
         // Multi-line block doc comment (/** ... */)
-        1 if doc_attrs[0].contains('\n') => format!("/**{}*/\n", &doc_attrs[0]),
+        1 if doc_attrs[0].contains('\n') => jsdoc(&doc_attrs[0]),
 
         // Regular doc comment(s) (///) or single line block doc comment
         _ => {
-            let mut buffer = String::from("/**\n");
+            let mut buffer = String::from("\n");
             let mut lines = doc_attrs.iter().peekable();
 
             while let Some(line) = lines.next() {
@@ -218,10 +218,17 @@ pub fn parse_docs(attrs: &[Attribute]) -> Result<String> {
                     buffer.push('\n');
                 }
             }
-            buffer.push_str("\n */\n");
-            buffer
+            buffer.push_str("\n ");
+            jsdoc(&buffer)
         }
     })
+}
+
+/// Wraps `text` into `/**` and `*/`. A `*/` in the text, or one formed with the `*` in front
+/// of it, would end the comment early, so it is written as `*\/`.
+fn jsdoc(text: &str) -> String {
+    let content = format!("*{text}").replace("*/", "*\\/");
+    format!("/*{content}*/\n")
 }
 
 #[cfg(feature = "serde-compat")]
